@@ -103,7 +103,7 @@ func init() {
 	reg("lowleaf", Leaf, 1, ix(0), nil, false, 1)
 	reg("asleaf", Leaf, 1, ix(0), nil, false, 1)
 	reg("hdleaf", Leaf, 3, ix(0, 1, 2), nil, false, 1) // third-party leaf with its own hint and detail
-	reg("stacksafeleaf", Leaf, 1, ix(0), nil, false, 0) // weight 0: only placed explicitly (C15); an unregistered type loses its stack in transfer
+	reg("stacksafeleaf", Leaf, 2, ix(0), ix(1), false, 0) // weight 0: only placed explicitly (C12, C15); an unregistered type loses its stack in transfer
 	// library wrappers
 	reg("wrap", Wrap, 1, nil, ix(0), true, 4)
 	reg("wrapempty", Wrap, 0, nil, nil, true, 1)
@@ -325,7 +325,7 @@ func Build1(n *Node, m Built) error {
 	case "asleaf":
 		return &AsLeaf{S[0]}
 	case "stacksafeleaf":
-		return &StackSafeLeaf{Msg: S[0], St: pkgErr.New("").(interface{ StackTrace() pkgErr.StackTrace }).StackTrace()}
+		return &StackSafeLeaf{Msg: S[0], Safe: S[1], St: pkgErr.New("").(interface{ StackTrace() pkgErr.StackTrace }).StackTrace()}
 	// ---- library wrappers
 	case "wrap":
 		return errors.Wrap(kids[0], S[0])
